@@ -1,0 +1,10 @@
+//go:build verif
+
+package wal
+
+// Contracts for govc (see /verif/DESIGN.md). Compiled only with -tags verif.
+
+//@ func (*Manager).SegmentRecordMetrics
+//@   trusted
+//@   tag ghost-pure
+//@   modifies nothing
